@@ -625,6 +625,9 @@ fn format_literal(
             output.push('-');
             write_infinity_untyped(output, context);
         }
+        ast::Literal::FloatUntyped(v) if *v == 0.0 && v.is_sign_negative() => {
+            output.push_str("-0.0")
+        }
         ast::Literal::FloatUntyped(v) if *v == (*v as i64 as f64) => {
             write!(output, "{}.0", *v as i64).unwrap()
         }
@@ -640,7 +643,7 @@ fn format_literal(
             write_infinity_f16(output, context);
         }
         ast::Literal::Float16(v) if *v == f32::NEG_INFINITY => write!(output, "-INFINITY").unwrap(),
-        ast::Literal::Float16(v) => write!(output, "{v}h").unwrap(),
+        ast::Literal::Float16(v) => write_decimal(v, "h", output),
         ast::Literal::Float32(v) if *v == f32::INFINITY => {
             write_infinity_f32(output, context);
         }
@@ -650,6 +653,9 @@ fn format_literal(
         }
         ast::Literal::Float32(v) if *v == f32::MAX && context.target == Target::Msl => {
             output.write_str("FLT_MAX").unwrap()
+        }
+        ast::Literal::Float32(v) if *v == 0.0 && v.is_sign_negative() => {
+            output.push_str("-0.0f")
         }
         ast::Literal::Float32(v) if *v == (*v as i64 as f32) => {
             write!(output, "{}.0f", *v as i64).unwrap()
@@ -665,7 +671,7 @@ fn format_literal(
             output.push('-');
             write_infinity_f64(output, context);
         }
-        ast::Literal::Float64(v) => write!(output, "{v}L").unwrap(),
+        ast::Literal::Float64(v) => write_decimal(v, "L", output),
         ast::Literal::String(s) => write!(output, "\"{s}\"").unwrap(),
     }
     Ok(())
@@ -685,6 +691,16 @@ fn write_infinity_f16(output: &mut String, context: &mut FormatContext) {
     } else {
         "1.#INFh"
     });
+}
+
+/// Write a finite floating point value with a decimal point so it does not read as an integer
+fn write_decimal(value: impl std::fmt::Display, suffix: &str, output: &mut String) {
+    let digits = value.to_string();
+    output.push_str(&digits);
+    if !digits.contains('.') {
+        output.push_str(".0");
+    }
+    output.push_str(suffix);
 }
 
 fn write_infinity_f32(output: &mut String, context: &mut FormatContext) {
